@@ -76,6 +76,9 @@ def run(tier):
     out = tlc_out(ck, wd, "SimpleGlyphMC", "SimpleGlyphMC_%s.cfg" % tier, "simpleglyph", workers=8)
     strict(ck, "simple-glyph-points", "fv-total", ["c01", "simpleglyph", "--cases", out, "--trace-every", 100000, "--out", os.path.join(wd, "s.ndjson")])
     os.remove(out)
+    out = tlc_out(ck, wd, "FdSelectMC", "FdSelectMC.cfg", "fdselect", workers=2)
+    strict(ck, "cff-fdselect", "fv-total", ["cs", "fdselect", "--cases", out, "--out", os.path.join(wd, "w.ndjson")])
+    os.remove(out)
     out = tlc_out(ck, wd, "DictMC", "DictMC_%s.cfg" % tier, "dict", workers=6)
     strict(ck, "cff-dict-tokens", "fv-total", ["cs", "dict", "--cases", out, "--out", os.path.join(wd, "v.ndjson")])
     os.remove(out)
